@@ -243,8 +243,61 @@ func checkC05(p *Prog, rp *Report) {
 
 type token_pos struct{ s string }
 
+// c05ArchList: ParseArchitectures on blank separated lists equals ParseArch element by element.
+func c05ArchList(p *Prog, r *Rule) {
+	pl := p.Func("dependency", "ParseArchitectures")
+	pa := p.Func("dependency", "ParseArch")
+	if pl == nil || pa == nil {
+		return
+	}
+	m := NewMachine(p, nil)
+	var problems []string
+	for _, tc := range []struct {
+		text  string
+		elems []string
+	}{{"amd64", []string{"amd64"}}, {"amd64 i386  linux-any", []string{"amd64", "i386", "linux-any"}}, {" any-arm64\n musl-linux-arm\t", []string{"any-arm64", "musl-linux-arm"}}, {"", nil}, {"  ", nil}, {"all", []string{"all"}}} {
+		st := initState(m, "dependency")
+		st.push(pl, []Val{tc.text}, nil)
+		out := m.Run(st)
+		if len(out) != 1 || out[0].Status != stRet {
+			problems = append(problems, "undecided: ParseArchitectures: "+retDesc(out))
+			break
+		}
+		tv, _ := st.Ret.(*TupleV)
+		if tv == nil || len(tv.E) != 2 {
+			problems = append(problems, "undecided: unexpected result shape")
+			break
+		}
+		if _, errNil := tv.E[1].(nilV); !errNil {
+			problems = append(problems, fmt.Sprintf("ParseArchitectures(%q) fails", tc.text))
+			continue
+		}
+		elems, _, _ := m.sliceElems(st, tv.E[0])
+		var want []string
+		for _, e := range tc.elems {
+			st2 := initState(m, "dependency")
+			st2.push(pa, []Val{e}, nil)
+			o2 := m.Run(st2)
+			if len(o2) != 1 || o2[0].Status != stRet {
+				problems = append(problems, "undecided: ParseArch: "+retDesc(o2))
+				break
+			}
+			want = append(want, strings.TrimPrefix(deepRender(st2, st2.Ret.(*TupleV).E[0], 0), "&"))
+		}
+		var got []string
+		for _, e := range elems {
+			got = append(got, deepRender(st, e, 0))
+		}
+		if strings.Join(got, " ") != strings.Join(want, " ") {
+			problems = append(problems, fmt.Sprintf("ParseArchitectures(%q) = %v, element by element ParseArch gives %v", tc.text, got, want))
+		}
+	}
+	fillProblems(r, "dependency.ParseArchitectures", p.Pos(pl.Pos()), problems, "6 blank separated lists (single, several blanks, folded, empty) parse to the architectures of their elements")
+}
+
 func c05Arch(p *Prog, rp *Report) {
 	r := rp.Rule("C05-ARCH", "architecture names survive parse / render / parse", 2)
+	c05ArchList(p, r)
 	pa := p.Func("dependency", "ParseArch")
 	um := p.Method("dependency", "Arch", "UnmarshalControl")
 	as := p.Method("dependency", "Arch", "String")
